@@ -413,6 +413,18 @@ def sx_str(x="", *a):
         return x.decode(*a)
     if isinstance(x, SxBytes):
         return "<bytes>"
+    if not a and not isinstance(x, (str, bytes, int, float, bool, type(None), list, tuple, dict, set, type)):
+        # user-defined __str__/__repr__ may legitimately produce symbolic text
+        t = type(x)
+        f = t.__dict__.get("__str__") or next((c.__dict__["__str__"] for c in t.__mro__ if "__str__" in c.__dict__
+                                                and c is not object), None)
+        if f is None:
+            f = next((c.__dict__["__repr__"] for c in t.__mro__ if "__repr__" in c.__dict__ and c is not object), None)
+        if f is not None and not isinstance(x, BaseException):
+            r = f(x)
+            if isinstance(r, (str, SxStr, SxChar)):
+                return r
+            raise TypeError("__str__ returned non-string (type %s)" % type(r).__name__)
     return str(x, *a)
 
 
